@@ -24,6 +24,7 @@ struct GModel {
 };
 static NiObject* const DANGLING = reinterpret_cast<NiObject*>(uintptr_t(1));
 
+static long serialisedOnly = 0;
 static GModel captureModel(NifFile& nif) {
 	GModel m;
 	auto& hdr = nif.GetHeader();
@@ -31,11 +32,22 @@ static GModel captureModel(NifFile& nif) {
 	for (uint32_t i = 0; i < nb; i++) m.order.push_back(hdr.GetBlock<NiObject>(i));
 	for (auto o : m.order) {
 		if (!o) continue;
+		// every reference the block serialises (hook H2), whether or not the block enumerates it: a reference the
+		// notifications cannot reach drifts off its target at the first deletion or reorder. Serialised first: writing
+		// brings fixed-size lists to their size (constraint entities), which invalidates pointers taken before.
+		std::set<NiRef*> ser;
+		if (!dynamic_cast<NiUnknown*>(o)) {
+			WriteMap wm;
+			putBlock(hdr, o, &wm);
+			for (auto& sr : wm.refs) ser.insert(sr.ref);
+		}
 		std::set<NiRef*> rs;
 		o->GetChildRefs(rs);
 		std::set<NiRef*> ps;
 		o->GetPtrs(ps);
 		rs.insert(ps.begin(), ps.end());
+		for (auto r : ser)
+			if (rs.insert(r).second) serialisedOnly++;
 		auto& v = m.refs[o];
 		for (auto r : rs) v.push_back({r, r->IsEmpty() ? nullptr : (r->index < nb ? m.order[r->index] : DANGLING)});
 	}
@@ -306,6 +318,7 @@ void profile_blockedit(const json& plan, Ctx& ctx) {
 	checkWrittenFile(*nif, so.bytes, wmf, ctx, "final save");
 	NifFile chk;
 	if (loadNif(chk, so.bytes).rc != 0) ctx.viol("graph:final-reload-failed", "the edited model does not reload");
+	if (serialisedOnly) ctx.probe("refs_serialised_but_not_enumerated", serialisedOnly);
 	setStage("dtor");
 }
 
